@@ -5,9 +5,11 @@ import vlib, kapi
 
 
 class P11:
+    DEFAULT_BACKEND = 'file'      # objectstore.backend used when the caller does not say
     EXTRA_ENV = {}      # merged into the environment of every driver process (e.g. the sanitizer runtime for the asan build)
 
-    def __init__(self, p11drv, lib, mechanisms=None, backend='file', umask=None, env_extra=None, keep=False, reuse=None):
+    def __init__(self, p11drv, lib, mechanisms=None, backend=None, umask=None, env_extra=None, keep=False, reuse=None):
+        backend = backend or P11.DEFAULT_BACKEND
         if reuse:
             self.dir = reuse
             keep = True
